@@ -144,11 +144,41 @@ func (e *Enc) EncodeTop() {
 
 	exits := e.run(fr, args, st0, tTrue)
 
-	var rets []*Exit
+	var rets, pans []*Exit
 	for _, ex := range exits {
 		if ex.kind == "return" {
 			rets = append(rets, ex)
+		} else if ex.kind == "panic" {
+			pans = append(pans, ex)
 		}
+	}
+	if c == nil || len(c.Panics) == 0 {
+		// explicit panics must be unreachable
+		for _, ex := range pans {
+			e.panicExit(fr, ex)
+		}
+	} else {
+		// panics clauses: the function panics exactly when one of them holds at entry
+		entryEnv := env.sub(e.entryState)
+		var specs []Term
+		for _, pc := range c.Panics {
+			g, err := entryEnv.evalBool(pc.E)
+			if err != nil {
+				e.problem("panics %s: %v", pc.Label, err)
+				continue
+			}
+			specs = append(specs, g)
+		}
+		spec := e.def("panicspec", or(specs...))
+		var pconds, rconds []Term
+		for _, ex := range pans {
+			pconds = append(pconds, ex.cond)
+		}
+		for _, ex := range rets {
+			rconds = append(rconds, ex.cond)
+		}
+		e.oblige(e.topName()+":panics:only", "ensures", or(pconds...), spec, "")
+		e.oblige(e.topName()+":panics:must", "ensures", spec, not(or(rconds...)), "")
 	}
 	if c == nil {
 		return
@@ -288,6 +318,16 @@ func (e *Enc) frameObligations(c *Contract, env *CEnv, rets []*Exit) {
 				}
 			}
 		case *CCall:
+			if n.Fn == "mapof" && len(n.Args) == 1 {
+				if xv, err := entryEnv.eval(n.Args[0]); err == nil && xv.T != nil {
+					if mt, ok := xv.T.Underlying().(*types.Map); ok {
+						dk, vk, lk, _, _ := e.mapKeys(mt)
+						for _, k := range []string{dk, vk, lk} {
+							get(k).refs = append(get(k).refs, xv.Term)
+						}
+					}
+				}
+			}
 			if n.Fn == "mem" && len(n.Args) == 1 {
 				if xv, err := entryEnv.eval(n.Args[0]); err == nil && xv.T != nil {
 					if sl, ok := xv.T.Underlying().(*types.Slice); ok {
@@ -305,6 +345,9 @@ func (e *Enc) frameObligations(c *Contract, env *CEnv, rets []*Exit) {
 	sort.Strings(keys)
 	alloc0 := e.heapGet(e.entryState, "$alloc")
 	for _, k := range keys {
+		if strings.HasPrefix(k, "RS:") {
+			continue // iteration ghosts are local to the activation
+		}
 		if k == "$alloc" {
 			if c.Pure {
 				var goals []Term
